@@ -70,6 +70,7 @@ def gen_pair_cases(rng, n):
             force = {}
             nn = c['nests']
             cn = []
+            full = rng.random() < 0.5
             for j, (p, alts) in enumerate(nn):
                 al = []
                 for a in alts:
@@ -77,9 +78,16 @@ def gen_pair_cases(rng, n):
                     for nm in beta_names(v):
                         force[nm] = 1
                     al.append([a, v])
+                if full:
+                    # full alpha dictionaries: every other alternative (also one outside every nest) listed with alpha = 0
+                    for a, _ in c['util']:
+                        if a not in alts:
+                            al.append([a, rng.choice([{'n': 0}, {'n': 0.0}, {'e': ['Num', 0]}])])
+                    rng.shuffle(al)
                 cn.append([copy.deepcopy(p), al])
             c['nests'] = cn
             c['nests_alt'] = nn
+            c['full_alpha'] = full
             finish(rng, c, force)
             c['calls'] = [{'name': 'AV', 'fn': 'AV'},
                           {'name': 'lhs', 'fn': 'cnl', 'syntax': syn},
@@ -190,7 +198,8 @@ def stream_pairs(ctx, n_quick=110, n_thorough=1500):
     kinds = {}
     for c, res in zip(cases, results):
         kind = c['pair_kind']
-        kinds[kind] = kinds.get(kind, 0) + 1
+        kk = kind + ('_full_alpha' if c.get('full_alpha') else '')
+        kinds[kk] = kinds.get(kk, 0) + 1
         if 'exc' in res:
             st.record({'kind': kind, 'exc': res['exc']}, nontrivial=False)
             ctx.violation(f'C06/pairs/{kind}/harness', 'the case could not be evaluated', c, None, res)
@@ -217,7 +226,7 @@ def pair_cases_from_build(rng, bc):
     out = []
     kind = bc.get('kind')
     fam = base.KIND_FAMILY.get(kind)
-    if fam not in ('nested', 'nested_mu', 'cnlmu') or len(bc.get('util', [])) < 2:
+    if fam not in ('nested', 'nested_mu', 'cnlmu', 'cnl') or len(bc.get('util', [])) < 2:
         return out
     syn = (bc.get('syntaxes') or ['legacy'])[0]
 
